@@ -244,6 +244,17 @@ def run(ctx):
                             v = ix.inline(a7.c(sym.field(wr["value"], f_)))
                             loaded = guards.is_field_of_item(ix, v, contract, item, f_)
                             seq.append((ei, loaded, v))
+                    # the message asks for a new holder on this path: what is stored last carries it
+                    asked = False
+                    mf = a7.msgfield(f_)
+                    for (at, o, _b, _l) in q.conds:
+                        ai = ix.inline(a7.c(at))
+                        if o is True and tag(ai) == "op" and payload(ai)[0] == "is_some" and ix.inline(kids(ai)[0]) == mf:
+                            asked = True
+                        if tag(ai) == "op" and payload(ai)[0] == "discr" and ix.inline(kids(ai)[0]) == mf and o == ("variant", "Some"):
+                            asked = True
+                    if asked and seq and seq[-1][1]:
+                        bad = bad or "the message names a new config.%s but the Config stored last on that path carries the loaded one" % f_
                     for i, (e1, l1, v1) in enumerate(seq):
                         if l1:
                             continue
@@ -256,3 +267,24 @@ def run(ctx):
                     continue   # this arm does not transfer that role
                 ctx.inst("R09.7", "transfer-sticks:%s::%s:config.%s" % (contract, variant, f_), bad is None and changed_somewhere and n_w > 0, a7.fn.where(),
                          bad or ("%d Config stores; a changed holder is never reverted" % n_w if changed_somewhere else "no success path stores a holder other than the loaded one: the role cannot be transferred"))
+
+
+    # ---------------------------------------------------------------- R09.8
+    # "registry changes and shutdown only for the fund's owner" - and FOR the owner: a shutdown that stops at the first
+    # closed vAMM (or is refused because the first registered one is closed) takes the right away from its holder
+    # (round-12 seed C09o: `take_while` where `filter` was meant).  R14.5 / R14.6 evaluated in a C14 context and copied.
+    from .. import core as _core
+    from . import c14 as _c14
+    ctx.rule("R09.8", "the owner's ShutdownVamms reaches every open vAMM of the registry (R14.5) and needs the owner role alone (R14.6)", 4)
+    sub8 = _core.Ctx("C14", ctx.world, ctx.tier)
+    try:
+        _c14.run(sub8)
+        n8 = 0
+        for i8 in sub8.insts:
+            if i8.rule in ("R14.5", "R14.6"):
+                n8 += 1
+                ctx.inst("R09.8", i8.key.replace(":", "/", 1), i8.ok, i8.where, i8.detail)
+        if n8 == 0:
+            ctx.lost("R09.8", "shutdown instances")
+    except Exception as e:
+        ctx.undetermined("R09.8", "shutdown", str(e)[:200])
